@@ -571,78 +571,7 @@ func c01SideData(c *Ctx) {
 		}
 		c.Check(ok, "R01e", "the extended MSI digest is PrehashMSI(input, requested digest) or absent", p.Pos(tf.Pos()), "", "the MsiDigitalSignatureEx blob the client writes next to the signature can be "+why+": the server digests the upload with the requested algorithm, so the two disagree and the signed file fails verification (\"MSI extended digest mismatch\")")
 	}
-	// PowerShell: TextSize provenance
-	if dp := p.Func("lib/authenticode.DigestPowershell"); dp == nil {
-		c.Undecided("R01e", "DigestPowershell", "-", "function not found")
-	} else {
-		c.Analysed(p.FName(dp))
-		var ts ssa.Value
-		for _, b := range dp.Blocks {
-			for _, in := range b.Instrs {
-				if st, ok := in.(*ssa.Store); ok {
-					if tn, f, _ := p.fieldAddr(st.Addr); tn == "lib/authenticode.PsDigest" && f == "TextSize" {
-						ts = st.Val
-					}
-				}
-			}
-		}
-		ok := ts != nil
-		foreign := ""
-		fromInput := false
-		if ok {
-			// walk the arithmetic: phis, additions, conversions, slicing and len(); any other
-			// call is a leaf, and the only leaf allowed is a line read from the input
-			seen := map[ssa.Value]bool{}
-			var walk func(v ssa.Value)
-			walk = func(v ssa.Value) {
-				if v == nil || seen[v] {
-					return
-				}
-				seen[v] = true
-				switch x := v.(type) {
-				case *ssa.Phi:
-					for _, e := range x.Edges {
-						walk(e)
-					}
-				case *ssa.BinOp:
-					walk(x.X)
-					walk(x.Y)
-				case *ssa.Convert:
-					walk(x.X)
-				case *ssa.ChangeType:
-					walk(x.X)
-				case *ssa.Slice:
-					walk(x.X)
-					walk(x.Low)
-					walk(x.High)
-				case *ssa.Extract:
-					walk(x.Tuple)
-				case *ssa.Call:
-					if bi, isB := x.Call.Value.(*ssa.Builtin); isB && bi.Name() == "len" {
-						walk(x.Call.Args[0])
-						return
-					}
-					if n := p.calleeName(x.Common()); n == "lib/authenticode.readLine" {
-						fromInput = true
-					} else {
-						// a call all of whose arguments are constants yields the same value for every
-						// input (the encoded form of the line ending): not a dependence on the input
-						constArgs := len(x.Common().Args) > 0
-						for _, a := range x.Common().Args {
-							if _, isK := a.(*ssa.Const); !isK {
-								constArgs = false
-							}
-						}
-						if !constArgs {
-							foreign = n
-						}
-					}
-				}
-			}
-			walk(ts)
-		}
-		c.Check(ok && fromInput && foreign == "", "R01e", "PowerShell text size is a sum of input line lengths", p.Pos(dp.Pos()), "", "PsDigest.TextSize (the offset at which the signature block is spliced in) depends on the result of "+foreign+" rather than only on the lengths of the lines read from the input: for inputs where the two differ the block lands inside the script text")
-	}
+	psTextSizeProvenance(c, "R01e")
 	for _, f := range poolEscapes(p) {
 		c.Check(f.OK, "R01e", f.Key, f.Pos, "", f.Detail)
 	}
